@@ -42,6 +42,7 @@ def main():
     checks = [prop]
     tier = "quick"
     do_tests = True
+    benign = False
     i = 3
     while i < len(a):
         if a[i] == "--checks":
@@ -52,6 +53,11 @@ def main():
             i += 2
         elif a[i] == "--no-tests":
             do_tests = False
+            i += 1
+        elif a[i] == "--benign":
+            # a change that PRESERVES the property: the demo must exit 0 on both trees, and a check that reports a
+            # violation on it is a false alarm (kept under /verif/benign/<name>)
+            benign = True
             i += 1
         else:
             i += 1
@@ -111,7 +117,7 @@ def main():
                     shutil.rmtree(d, ignore_errors=True)
                 res[f"demo_{tag}_rc"] = rc
                 res[f"demo_{tag}_out"] = out.strip()[-600:]
-            res["demo_ok"] = res["demo_unchanged_rc"] == 0 and res["demo_changed_rc"] != 0
+            res["demo_ok"] = res["demo_unchanged_rc"] == 0 and ((res["demo_changed_rc"] == 0) if benign else (res["demo_changed_rc"] != 0))
         # our checks
         res["checks"] = {}
         for c in checks:
@@ -126,10 +132,14 @@ def main():
             summ = [l for l in out.splitlines() if l.startswith(f"[{c}]")]
             res["checks"][c] = {"rc": rc, "caught": rc == 1 and bool(viol), "violations": len(viol), "clauses": clauses,
                                 "no_failing_input": any("no-failing-input-found" in v for v in viol),
-                                "summary": summ[-1] if summ else out[-300:]}
+                                "summary": summ[-1] if summ else out[-300:],
+                                "detail": [l[:300] for l in out.splitlines() if l.startswith(("[violation]", "[diverge]", "[proof]"))][:12]}
         res["caught_by"] = [c for c, r in res["checks"].items() if r["caught"]]
         # keep
-        dst = V / "seeded" / name
+        dst = V / ("benign" if benign else "seeded") / name
+        if benign:
+            res["benign"] = True
+            res["false_alarms"] = res["caught_by"]
         dst.mkdir(parents=True, exist_ok=True)
         (dst / "patch.diff").write_text(patch)
         if demo.exists() and demo.resolve() != (dst / "demo.py").resolve():
